@@ -149,7 +149,7 @@ func boolU(b bool) uint64 {
 }
 
 func runBits(c *hx.Ctx) {
-	cw := c.NewCaseWriter("From NV Require Import model.Bits corr.Bits_corr.", "Bits_corr.case", "Bits_corr.check_case", 150)
+	cw := c.NewCaseWriter("From NV Require Import model.Bits corr.Bits_corr.", "Bits_corr.case", "Bits_corr.check_case", 200)
 	const top = ^uint64(0)
 
 	// 0. the F11 witness first: counters within one window of 2^64 (top+1-111 = 2^64-111, ...)
@@ -160,7 +160,7 @@ func runBits(c *hx.Ctx) {
 	emitBitsHist(cw, w)
 
 	// 1. NewBits on powers of two and their neighbours
-	for _, L := range []uint64{0, 1, 2, 3, 4, 5, 8, 32, 63, 64, 65, 96, 128, 192, 1024, 8191, 8192, 8193, 1 << 20, 1<<20 + 64} {
+	for _, L := range []uint64{0, 1, 2, 3, 4, 5, 8, 32, 63, 64, 65, 96, 128, 192, 1024, 8191, 8192, 8193, 1 << 14, 1<<14 + 64} {
 		emitBitsNew(cw, L)
 	}
 
@@ -209,6 +209,52 @@ func runBits(c *hx.Ctx) {
 		x.u(0)
 		x.u(1)
 		emitBitsHist(cw, x)
+	}
+
+	// 2b. evict-and-reuse: counters seen in one window, a jump that slides them out, then the counters that
+	// reuse their bit positions must be accepted (a position clearRange failed to clear shows up here)
+	for _, L := range bitsWindows {
+		if L < 4 {
+			continue
+		}
+		for rep := 0; rep < 6; rep++ {
+			h := &bitsHist{L: L, kind: "evict-reuse"}
+			b := uint64(1 + c.Intn(int(3*L)))
+			var S []uint64
+			cur := b
+			h.u(b)
+			S = append(S, b)
+			for k := 0; k < 2+c.Intn(6); k++ {
+				x := b + uint64(c.Intn(int(L)))
+				h.u(x)
+				S = append(S, x)
+				if x > cur {
+					cur = x
+				}
+			}
+			if c.Chance(0.5) { // a fully set word or two
+				for k := uint64(0); k < 70 && cur+1 < b+L; k++ {
+					cur++
+					h.u(cur)
+					S = append(S, cur)
+				}
+			}
+			i := cur + 1 + uint64(c.Intn(int(L-1)))
+			if rep == 0 {
+				i = cur + L - 1
+			}
+			h.ku(i)
+			for _, x := range S {
+				if x+L <= i {
+					h.ku(x + L) // reuses x's position: fresh
+					h.ku(x + L) // now a duplicate
+					h.ku(x)     // slid out
+				} else {
+					h.ku(x) // still in the window: duplicate
+				}
+			}
+			emitBitsHist(cw, h)
+		}
 	}
 
 	// 3. small windows exhaustively: every sequence of n counters from a small alphabet, each as Check; Update
